@@ -40,6 +40,7 @@ type FaultCase struct {
 	RawWire     string `json:"raw_wire,omitempty"`    // hex: replace the wire bytes of the selected message by these bytes (C06)
 	AsFrom      int   `json:"as_from,omitempty"`      // C06: hand the selected message over as if sent by party index AsFrom-1000000 (may be out of range)
 	Craft       *CraftSpec `json:"craft,omitempty"`   // C06: crafted relations across messages
+	AllDev      bool  `json:"all_dev,omitempty"`      // C06: the alteration is applied to the messages of this type from EVERY sender (several misbehaving peers at once)
 }
 
 // CraftSpec describes a deviating party that is consistent across two messages (e.g. commits to a degenerate tuple and opens it).
@@ -50,6 +51,7 @@ type CraftSpec struct {
 	DType  string `json:"d_type"`
 	DField string `json:"d_field"`
 	Arity  int    `json:"arity,omitempty"`
+	Sizes  string `json:"sizes,omitempty"` // repack: part sizes of the re-split multi-part packing, e.g. "129,127"
 }
 
 // craftedOpening returns the de-commitment [r, values...] of a crafted commitment.
@@ -114,6 +116,12 @@ func (fc FaultCase) ID() string {
 	}
 	if fc.Replace {
 		craft += "|replace"
+	}
+	if fc.AllDev {
+		craft += "|alldev"
+	}
+	if fc.Craft != nil && fc.Craft.Sizes != "" {
+		craft += ":" + fc.Craft.DField + ":" + fc.Craft.Sizes
 	}
 	return fmt.Sprintf("%s|n%d.%d.%d|dev%d|%s>%d|%s|m%d|ws%v|dp%d|aa%v|%s|%d|%s|from%d|%s", fc.Sc.Proto, fc.Sc.N, fc.Sc.NewN, fc.Sc.T, fc.Dev, fc.Type, fc.To, fc.Spec,
 		fc.Mirror, fc.WrongSecret, fc.DupParams, fc.AfterAbort, fc.Sc.Strategy, fc.Sc.Seed, shortHex(fc.RawWire), fc.AsFrom, craft)
@@ -230,6 +238,35 @@ func execFault(fc FaultCase) (*FaultOutcome, error) {
 				consumed[it.To.G] = true
 				return w
 			}
+			if c.Kind == "repack" {
+				if it.Msg.Type != c.DType {
+					return nil
+				}
+				var list [][]byte
+				for i := 0; ; i++ {
+					b, err := tamper.Get(it.Wire, c.DField, i)
+					if err != nil {
+						break
+					}
+					list = append(list, b)
+				}
+				if len(list) == 0 {
+					out.Note = "repack: field not found"
+					return nil
+				}
+				var hs []string
+				for _, b := range repack(list, parseSizes(c.Sizes)) {
+					hs = append(hs, hex.EncodeToString(b))
+				}
+				w, _, err := tamper.Apply(it.Wire, tamper.Spec{Field: c.DField, Kind: "setlist", Hex: strings.Join(hs, ",")}, rng, nil)
+				if err != nil {
+					out.Note = "repack: " + err.Error()
+					return nil
+				}
+				out.Applied, out.Changed = true, true
+				consumed[it.To.G] = true
+				return w
+			}
 			open := craftedOpening(c, sc.Proto.IsEcdsa())
 			switch it.Msg.Type {
 			case c.CType:
@@ -256,7 +293,7 @@ func execFault(fc FaultCase) (*FaultOutcome, error) {
 			}
 			return nil
 		}
-		if fc.Type == "" || it.From.G != fc.Dev || it.Msg.Type != fc.Type {
+		if fc.Type == "" || (it.From.G != fc.Dev && !fc.AllDev) || it.Msg.Type != fc.Type {
 			return nil
 		}
 		if fc.To != 0 && it.To.G != fc.To {
@@ -275,6 +312,9 @@ func execFault(fc FaultCase) (*FaultOutcome, error) {
 		key := fmt.Sprintf("%d", it.To.G)
 		if it.Msg.Kind == "B" {
 			key = "B"
+		}
+		if fc.AllDev {
+			key += fmt.Sprintf("<%d", it.From.G)
 		}
 		out.Applied = true
 		consumed[it.To.G] = true
